@@ -579,11 +579,28 @@ func replacesParam(w *World, key, param string, active map[string]bool) (bool, s
 				if id, ok := ast.Unparen(st.X).(*ast.Ident); ok && info.Uses[id] == obj {
 					r := ast.Unparen(as.Rhs[0])
 					if se, ok := r.(*ast.SliceExpr); ok && se.Low == nil && se.High != nil {
-						if tv, ok := info.Types[se.High]; ok && tv.Value != nil && tv.Value.String() == "0" {
+						if tv, ok := info.Types[se.High]; ok && tv.Value != nil && tv.Value.String() == "0" && mentions(se.X, obj, info) {
 							return true, ""
 						}
 					}
 					if !mentions(as.Rhs[0], obj, info) {
+						// the new contents must not be carved out of another caller-supplied slice: two results that
+						// share one backing array overwrite each other when they are appended to
+						for _, f := range fd.Type.Params.List {
+							for _, n := range f.Names {
+								po := info.Defs[n]
+								if po == nil || po == obj {
+									continue
+								}
+								t := po.Type()
+								if pt, ok := t.Underlying().(*types.Pointer); ok {
+									t = pt.Elem()
+								}
+								if sliceLike(t) && mentions(as.Rhs[0], po, info) {
+									return false, "takes over the storage of parameter " + n.Name + " at " + w.eff.pos(s)
+								}
+							}
+						}
 						return true, ""
 					}
 					return false, "old contents used at " + w.eff.pos(s)
